@@ -58,7 +58,10 @@ def read_files(arg):
     try:
         for it in arg["items"]:
             ext = it.get("ext", ".faa")
-            p = os.path.join(d, "f%s%s" % (it["id"], ext))
+            stem = ["f%s", "NC_%s.3", "rel-1.2.seq%s", ".hidden%s"][hash(str(it["id"])) % 4 if it.get("load") else 0] % it["id"]
+            sub = os.path.join(d, "v1.2") if it.get("load") and len(str(it["id"])) % 2 else d
+            os.makedirs(sub, exist_ok=True)
+            p = os.path.join(sub, stem + ext)
             with open(p, "w") as f:
                 f.write("".join(line + "\n" for line in it["lines"]))
             rec = {"id": it["id"]}
@@ -81,10 +84,8 @@ def read_files(arg):
             os.remove(p)
             out.append(rec)
     finally:
-        try:
-            os.rmdir(d)
-        except OSError:
-            pass
+        import shutil
+        shutil.rmtree(d, ignore_errors=True)
     return out
 
 
